@@ -3,9 +3,12 @@ from ..rules_shape import floor_a, const_agree, month_table
 from ..e5 import run_e5
 from ..rules_contract import run_contracts
 
+from ..rules_pair import ym_pair
+
 
 def run(ctx, rep):
     prog = ctx.prog("Q")
+    ym_pair(rep, prog, floor=15)
     rep.notes.append("Does not decide that the Neri-Schneider arithmetic computes Gregorian values.")
     floor_a(ctx, rep)
     const_agree(rep, prog)
